@@ -13,6 +13,7 @@ import (
 	"path/filepath"
 	"strings"
 	"sync"
+	"sync/atomic"
 	"time"
 
 	"github.com/go-spring/log"
@@ -119,6 +120,7 @@ func rollRealOne(r *hx.Result, dir string, k int, seed int64, seconds int) *rrRu
 	}
 	var mu sync.Mutex
 	var nextID int64
+	var oneByte, emptyLines int64
 	deadline := time.Now().Add(time.Duration(seconds) * time.Second)
 	sizes := []int{1, 10, 100, 1000, 8000, 65536}
 	writePhase := func(until time.Time) {
@@ -136,6 +138,13 @@ func rollRealOne(r *hx.Result, dir string, k int, seed int64, seconds int) *rrRu
 					mu.Unlock()
 					size := sizes[wr.Intn(len(sizes))]
 					line := []byte(fmt.Sprintf("W id=%d %s end=%d\n", id, strings.Repeat("p", size), id))
+					if wr.Intn(8) == 0 { // the smallest write there is: one byte (an empty line); counted, not identified
+						atomic.AddInt64(&oneByte, 1)
+						if p := hx.Catch(func() { app.Write([]byte("\n")) }); p != nil {
+							r.Violate("write-panic:rolling", run.Desc, "Write of one byte panicked: %v", p)
+							return
+						}
+					}
 					t0 := time.Now()
 					p := hx.Catch(func() { app.Write(line) })
 					t1 := time.Now()
@@ -218,8 +227,12 @@ func rollRealOne(r *hx.Result, dir string, k int, seed int64, seconds int) *rrRu
 		}
 		run.Files = append(run.Files, tm.Unix())
 		b, _ := os.ReadFile(filepath.Join(dir, name))
-		for _, line := range strings.Split(string(b), "\n") {
+		lines := strings.Split(string(b), "\n")
+		for li, line := range lines {
 			if line == "" {
+				if li < len(lines)-1 {
+					emptyLines++ // a one-byte write (what follows the file's last line break is not a line)
+				}
 				continue
 			}
 			var id, end int64
@@ -252,6 +265,9 @@ func rollRealOne(r *hx.Result, dir string, k int, seed int64, seconds int) *rrRu
 			l.file = tm.Unix()
 			l.count++
 		}
+	}
+	if emptyLines != atomic.LoadInt64(&oneByte) {
+		r.Violate("one-byte-writes", run.Desc, "%d writes of one byte (a line break) were issued, the files hold %d empty lines", oneByte, emptyLines)
 	}
 	for i := range run.Writes {
 		if l := where[run.Writes[i].ID]; l != nil {
